@@ -69,6 +69,7 @@ structure Cfg where
   clients : ChainId → Bool
   trace : ChainId → Token → Option Token     -- (origin chain, origin token) ↦ bound token here (`bindingTraces`)
   ori : Token → ChainId → Option Token       -- (bound token here, origin chain) ↦ origin token (`bindings[..].oriToken`)
+  scale : Token → ChainId → Nat              -- (bound token here, origin chain) ↦ `bindings[..].scale`: 1 origin unit = 10^scale bound units
 
 /-- Everything an EVM revert rolls back. `credited` / `refunded` are ghost counters living next to the token
 effects they count (so they share their fate under every rollback). -/
@@ -80,6 +81,8 @@ structure Evm where
   ackStatus : ChainId → Nat → Nat            -- packet `ackStatus[dst/seq]`
   fee : ChainId → Nat → Token × Nat          -- packet `packetFees[dst/seq]`
   agentData : ChainId → Nat → Option (Token × Nat × Acct)
+  allow : Token → Acct → Nat                 -- ERC-20 allowance of the endpoint contract over an account's tokens
+  feePaid : ChainId → Nat → Nat              -- ghost: (dst, seq) ↦ times the relay fee of that packet was paid out
   credited : ChainId → Nat → Nat             -- ghost: (src, seq) ↦ times the effects of that packet were applied here
   refunded : ChainId → Nat → Nat             -- ghost: (dst, seq) ↦ times that packet was refunded here
 
@@ -94,6 +97,7 @@ structure Chain where
 def Evm.empty : Evm :=
   { bal := fun _ _ => 0, supply := fun _ => 0, out := fun _ _ => 0, bindAmt := fun _ _ => 0,
     ackStatus := fun _ _ => 0, fee := fun _ _ => (0, 0), agentData := fun _ _ => none,
+    allow := fun _ _ => 0, feePaid := fun _ _ => 0,
     credited := fun _ _ => 0, refunded := fun _ _ => 0 }
 
 def Chain.empty : Chain :=
@@ -104,6 +108,19 @@ def debit (e : Evm) (t : Token) (a : Acct) (n : Nat) : Option Evm :=
 
 def credit (e : Evm) (t : Token) (a : Acct) (n : Nat) : Evm :=
   { e with bal := upd2 e.bal t a (e.bal t a + n) }
+
+/-- ERC-20 `transferFrom` / `burnFrom` executed by the endpoint: consumes the allowance (the native coin, token 0,
+travels as `msg.value` and needs none). -/
+def spend (e : Evm) (t : Token) (a : Acct) (n : Nat) : Option Evm :=
+  if t = 0 then some e
+  else if e.allow t a < n then none
+  else some { e with allow := upd2 e.allow t a (e.allow t a - n) }
+
+/-- `spend` then `debit`: what `transferFrom(a, …, n)` / `burnFrom(a, n)` needs. -/
+def pull (e : Evm) (t : Token) (a : Acct) (n : Nat) : Option Evm :=
+  match spend e t a n with
+  | none => none
+  | some e => debit e t a n
 
 structure SendArgs where
   dst : ChainId
@@ -116,13 +133,12 @@ structure SendArgs where
   callback : Bool
   deriving DecidableEq, Repr
 
-/-- Contract part of `endpoint.crossChainCall` + `packet.sendPacket` (all-or-nothing inside the EVM).
-Allowances are taken to be sufficient (the harness approves once, the agent approves itself). -/
+/-- Contract part of `endpoint.crossChainCall` + `packet.sendPacket` (all-or-nothing inside the EVM). -/
 def sendEvm (cfg : Cfg) (self : ChainId) (seq : Nat) (e : Evm) (sender : Acct) (a : SendArgs) : Option (Evm × Packet) :=
   if a.dst = self then none
   else if a.amount = 0 ∧ a.call = Call.none then none
   else
-    match debit e a.feeToken sender a.feeAmount with
+    match pull e a.feeToken sender a.feeAmount with
     | none => none
     | some e =>
       let e := credit e a.feeToken acPacket a.feeAmount
@@ -133,18 +149,20 @@ def sendEvm (cfg : Cfg) (self : ChainId) (seq : Nat) (e : Evm) (sender : Acct) (
       else
         match cfg.ori a.token a.dst with
         | some o =>
-          -- bound token going back to its origin: burn, bindings.amount -= amount
-          if e.bindAmt a.token a.dst < a.amount then none
+          -- bound token going back to its origin: `amount` is in origin units, burn amount·10^scale,
+          -- bindings.amount -= amount·10^scale
+          if e.bindAmt a.token a.dst < a.amount * 10 ^ cfg.scale a.token a.dst then none
           else
-            match debit e a.token sender a.amount with
+            match pull e a.token sender (a.amount * 10 ^ cfg.scale a.token a.dst) with
             | none => none
             | some e =>
-              some ({ e with supply := upd1 e.supply a.token (e.supply a.token - a.amount),
-                             bindAmt := upd2 e.bindAmt a.token a.dst (e.bindAmt a.token a.dst - a.amount) },
+              some ({ e with supply := upd1 e.supply a.token (e.supply a.token - a.amount * 10 ^ cfg.scale a.token a.dst),
+                             bindAmt := upd2 e.bindAmt a.token a.dst
+                               (e.bindAmt a.token a.dst - a.amount * 10 ^ cfg.scale a.token a.dst) },
                     pk (some { token := a.token, ori := some o, amount := a.amount, receiver := a.receiver }))
         | none =>
           -- origin token (or a token not bound towards dst): escrow, outTokens += amount
-          match debit e a.token sender a.amount with
+          match pull e a.token sender a.amount with
           | none => none
           | some e =>
             let e := credit e a.token acEndpoint a.amount
@@ -157,8 +175,10 @@ def sendKeeper (cfg : Cfg) (c : Chain) (p : Packet) : Option Chain :=
     some { c with nextSeq := upd1 c.nextSeq p.dst (p.seq + 1), commits := p :: c.commits }
   else none
 
-/-- A user's `crossChainCall` transaction (`ApplyTransaction`: EVM state and hooks commit together or not at all). -/
+/-- A user's `crossChainCall` transaction (`ApplyTransaction`: EVM state and hooks commit together or not at all).
+The system contracts themselves never originate a `crossChainCall` (byte-code fact; the agent does, inside a receive). -/
 def send (cfg : Cfg) (self : ChainId) (c : Chain) (sender : Acct) (a : SendArgs) : Option Chain :=
+  if sender = acEndpoint ∨ sender = acPacket then none else
   match sendEvm cfg self (c.nextSeq a.dst) c.evm sender a with
   | none => none
   | some (e, p) => sendKeeper cfg { c with evm := e } p
@@ -171,20 +191,21 @@ inductive Cb
   | hookFail (c : Chain)                    -- error reported after the EVM state `c` had been committed
 
 /-- Transfer part of `endpoint.onRecvPacket`; `none` = non-zero result code without state change.
-Returns the token credited on this chain. -/
-def recvTransfer (cfg : Cfg) (e : Evm) (p : Packet) : Option (Evm × Token) :=
+Returns the token credited on this chain and the number of its units that one unit of the packet's amount is worth
+here (10^scale for a bound token that is minted, 1 for an origin token that is released). -/
+def recvTransfer (cfg : Cfg) (e : Evm) (p : Packet) : Option (Evm × Token × Nat) :=
   match p.transfer with
-  | none => some ({ e with credited := upd2 e.credited p.src p.seq (e.credited p.src p.seq + 1) }, 0)
+  | none => some ({ e with credited := upd2 e.credited p.src p.seq (e.credited p.src p.seq + 1) }, 0, 1)
   | some t =>
     match t.ori with
     | none =>
       match cfg.trace p.src t.token with
       | none => none                                            -- "token not bound"
       | some v =>
-        let e := credit e v t.receiver t.amount
-        some ({ e with supply := upd1 e.supply v (e.supply v + t.amount),
-                       bindAmt := upd2 e.bindAmt v p.src (e.bindAmt v p.src + t.amount),
-                       credited := upd2 e.credited p.src p.seq (e.credited p.src p.seq + 1) }, v)
+        let e := credit e v t.receiver (t.amount * 10 ^ cfg.scale v p.src)
+        some ({ e with supply := upd1 e.supply v (e.supply v + t.amount * 10 ^ cfg.scale v p.src),
+                       bindAmt := upd2 e.bindAmt v p.src (e.bindAmt v p.src + t.amount * 10 ^ cfg.scale v p.src),
+                       credited := upd2 e.credited p.src p.seq (e.credited p.src p.seq + 1) }, v, 10 ^ cfg.scale v p.src)
     | some o =>
       if e.out o p.src < t.amount then none                     -- "amount is greater than locked"
       else
@@ -193,13 +214,13 @@ def recvTransfer (cfg : Cfg) (e : Evm) (p : Packet) : Option (Evm × Token) :=
         | some e =>
           let e := credit e o t.receiver t.amount
           some ({ e with out := upd2 e.out o p.src (e.out o p.src - t.amount),
-                         credited := upd2 e.credited p.src p.seq (e.credited p.src p.seq + 1) }, o)
+                         credited := upd2 e.credited p.src p.seq (e.credited p.src p.seq + 1) }, o, 1)
 
 /-- `packet.onRecvPacket` as seen through `CallEVMWithData` (EVM call, then hooks on the same context). -/
 def onRecv (cfg : Cfg) (self : ChainId) (c : Chain) (p : Packet) : Cb :=
   match recvTransfer cfg c.evm p with
   | none => .errorResult 2 c
-  | some (e, tok) =>
+  | some (e, tok, k) =>
     let c1 : Chain := { c with evm := e }
     match p.call with
     | .none => .ok c1
@@ -213,12 +234,19 @@ def onRecv (cfg : Cfg) (self : ChainId) (c : Chain) (p : Packet) : Cb :=
       | some t =>
         if t.receiver ≠ acAgent ∨ t.amount < fee then .errorResult 3 c1
         else
-          let a : SendArgs := { dst := dst, token := tok, amount := t.amount - fee, receiver := recv, call := .none,
-                                feeToken := tok, feeAmount := fee, callback := true }
+          -- the agent works in units of the token it received: amount·k in total, fee·k of it as the relay fee;
+          -- if that token is itself bound towards `dst` (it goes home) the endpoint wants the amount in origin units
+          let kout : Nat := match cfg.ori tok dst with
+            | some _ => 10 ^ cfg.scale tok dst
+            | none => 1
+          let a : SendArgs := { dst := dst, token := tok, amount := (t.amount - fee) * k / kout, receiver := recv, call := .none,
+                                feeToken := tok, feeAmount := fee * k, callback := true }
+          -- the agent approves the endpoint for everything it received
+          let e := { e with allow := upd2 e.allow tok acAgent (t.amount * k) }
           match sendEvm cfg self (c1.nextSeq dst) e acAgent a with
           | none => .errorResult 3 c1               -- inner call reverted; its own state is gone, the transfer part stays
           | some (e2, p2) =>
-            let e3 := { e2 with agentData := upd2 e2.agentData dst p2.seq (some (tok, t.amount - fee, refund)) }
+            let e3 := { e2 with agentData := upd2 e2.agentData dst p2.seq (some (tok, (t.amount - fee) * k / kout * kout, refund)) }
             match sendKeeper cfg { c1 with evm := e3 } p2 with
             | none => .hookFail { c1 with evm := e3 }
             | some c2 => .ok c2
@@ -249,16 +277,16 @@ def recvHandler (fixed : Bool) (cfg : Cfg) (self : ChainId) (c : Chain) (p : Pac
       | .hookFail ctx' => some (writeAck ctx' 1)
 
 /-- Refund part of `endpoint.onAcknowledgementPacket` (error acknowledgement). -/
-def refund (e : Evm) (p : Packet) : Option Evm :=
+def refund (cfg : Cfg) (e : Evm) (p : Packet) : Option Evm :=
   match p.transfer with
   | none => none                                                   -- decoding the empty transfer data reverts
   | some t =>
     match t.ori with
     | some _ =>
-      -- bound token that had been burnt: mint back, bindings.amount += amount
-      let e := credit e t.token p.sender t.amount
-      some { e with supply := upd1 e.supply t.token (e.supply t.token + t.amount),
-                    bindAmt := upd2 e.bindAmt t.token p.dst (e.bindAmt t.token p.dst + t.amount),
+      -- bound token that had been burnt: mint back amount·10^scale, bindings.amount += amount·10^scale
+      let e := credit e t.token p.sender (t.amount * 10 ^ cfg.scale t.token p.dst)
+      some { e with supply := upd1 e.supply t.token (e.supply t.token + t.amount * 10 ^ cfg.scale t.token p.dst),
+                    bindAmt := upd2 e.bindAmt t.token p.dst (e.bindAmt t.token p.dst + t.amount * 10 ^ cfg.scale t.token p.dst),
                     refunded := upd2 e.refunded p.dst p.seq (e.refunded p.dst p.seq + 1) }
     | none =>
       if e.out t.token p.dst < t.amount then none
@@ -280,7 +308,10 @@ def agentCallback (e : Evm) (p : Packet) : Option Evm :=
     | some e => some (credit e tok to amt)
 
 /-- `msg_server.Acknowledgement` after the proof of the acknowledgement has been verified
-(one transaction: any failure leaves the chain unchanged). -/
+(one transaction: any failure leaves the chain unchanged). `OnAcknowledgePacket` runs on a cache context; its
+failure is tolerated exactly for an error acknowledgement of a packet WITHOUT transfer data (nothing to refund —
+the endpoint contract reverts on decoding the empty transfer data): the packet is then settled without it.
+`refunded` counts settled error acknowledgements (with the refund of the transfer, if there is one). -/
 def ackHandler (cfg : Cfg) (self : ChainId) (c : Chain) (p : Packet) (code : Nat) : Option Chain :=
   if p.src ≠ self then none
   else if p ∉ c.commits then none                                  -- commitment must match
@@ -292,7 +323,13 @@ def ackHandler (cfg : Cfg) (self : ChainId) (c : Chain) (p : Packet) (code : Nat
     | none => none
     | some e1 =>
       let e1 := credit e1 (e.fee p.dst p.seq).1 acRelayer (e.fee p.dst p.seq).2
-      let r : Option Evm := if code = 0 then some e1 else refund e1 p                             -- OnAcknowledgePacket
+      let e1 := { e1 with feePaid := upd2 e1.feePaid p.dst p.seq (e1.feePaid p.dst p.seq + 1) }
+      if code ≠ 0 ∧ p.transfer = none then
+        -- OnAcknowledgePacket reverts on cctx; tolerated: settled, nothing refunded, callback not run
+        some { c with evm := { e1 with refunded := upd2 e1.refunded p.dst p.seq (e1.refunded p.dst p.seq + 1) },
+                      commits := c.commits.erase p }
+      else
+      let r : Option Evm := if code = 0 then some e1 else refund cfg e1 p                         -- OnAcknowledgePacket (cctx)
       match r with
       | none => none
       | some e2 =>
@@ -315,6 +352,8 @@ inductive Step
   | recv (src dst : ChainId) (seq : Nat)     -- relayer: deliver the packet committed on `src` to `dst`
   | ack (src dst : ChainId) (seq : Nat)      -- relayer: deliver the acknowledgement written on `dst` to `src`
   | mint (c : ChainId) (t : Token) (who : Acct) (n : Nat)    -- an origin token's own minter (no bridge state involved)
+  | approve (c : ChainId) (t : Token) (who : Acct) (n : Nat) -- ERC-20 `approve(endpoint, n)` by an account
+  | transfer (c : ChainId) (t : Token) (src dst : Acct) (n : Nat)  -- an ordinary token / coin transfer between accounts
   deriving Repr
 
 /-- One step; a rejected message leaves the world unchanged. -/
@@ -343,6 +382,16 @@ def step (fixed : Bool) (w : World) : Step → World
   | .mint i t who n =>
     let c := w.chains i
     w.set i { c with evm := { credit c.evm t who n with supply := upd1 c.evm.supply t (c.evm.supply t + n) } }
+  | .approve i t who n =>
+    let c := w.chains i
+    w.set i { c with evm := { c.evm with allow := upd2 c.evm.allow t who n } }
+  | .transfer i t src dst n =>
+    let c := w.chains i
+    if src = acEndpoint ∨ src = acPacket then w       -- the system contracts move tokens only through the handlers above
+    else
+      match debit c.evm t src n with
+      | none => w
+      | some e => w.set i { c with evm := credit e t dst n }
 
 def run (fixed : Bool) (w : World) (steps : List Step) : World := steps.foldl (step fixed) w
 
